@@ -407,15 +407,23 @@ func (e *Engine) installIntrinsics() {
 			}
 			return r
 		}
+		// Unicode spaces outside ASCII start with one of these lead bytes
+		// (U+0085, U+00A0: C2; U+1680: E1; U+2000-U+205F: E2; U+3000: E3)
+		mayLead := func(b *Term) *Term {
+			c := m.ctx
+			r := c.Eq(b, c.BV(0xc2, 8))
+			for _, ch := range []byte{0xe1, 0xe2, 0xe3} {
+				r = c.Or(r, c.Eq(b, c.BV(uint64(ch), 8)))
+			}
+			return r
+		}
 		for lo < hi {
 			b := m.strAt(s, lo)
-			if !b.IsConst() {
-				if !m.decide(m.ctx.ULt(b, m.ctx.BV(0x80, 8))) {
-					// non-ASCII: U+0085, U+00A0 and others are Unicode spaces; not modelled
-					m.unsupported("strings.TrimSpace on symbolic non-ASCII input at %s", m.where())
+			if !m.decide(m.ctx.ULt(b, m.ctx.BV(0x80, 8))) {
+				if m.decide(mayLead(b)) {
+					m.unsupported("strings.TrimSpace: possible non-ASCII Unicode space at %s", m.where())
 				}
-			} else if b.cval >= 0x80 {
-				m.unsupported("strings.TrimSpace on non-ASCII input")
+				break // a non-ASCII rune that is not a space (or an invalid byte)
 			}
 			if !m.decide(isSp(b)) {
 				break
@@ -424,12 +432,19 @@ func (e *Engine) installIntrinsics() {
 		}
 		for hi > lo {
 			b := m.strAt(s, hi-1)
-			if !b.IsConst() {
-				if !m.decide(m.ctx.ULt(b, m.ctx.BV(0x80, 8))) {
-					m.unsupported("strings.TrimSpace on symbolic non-ASCII input at %s", m.where())
+			if !m.decide(m.ctx.ULt(b, m.ctx.BV(0x80, 8))) {
+				// the last rune is non-ASCII: a space only if a lead byte C2/E1/E2/E3
+				// sits within the previous two bytes
+				poss := m.ctx.False
+				for k := 2; k <= 3; k++ {
+					if hi-k >= lo {
+						poss = m.ctx.Or(poss, mayLead(m.strAt(s, hi-k)))
+					}
 				}
-			} else if b.cval >= 0x80 {
-				m.unsupported("strings.TrimSpace on non-ASCII input")
+				if m.decide(poss) {
+					m.unsupported("strings.TrimSpace: possible non-ASCII Unicode space at %s", m.where())
+				}
+				break
 			}
 			if !m.decide(isSp(b)) {
 				break
